@@ -184,6 +184,31 @@ def d2_abort_everywhere(ctx, which, nontrivial, do_model=True):
                        fail_at=j, label="D2-internal-failure")
 
 
+def d2_vanishing_file(ctx, which, n):
+    """the interrupted test had moved the testcase file away: when run() is left, the file is back and holds the last
+    accepted version (monitors only)"""
+    rng = ctx.rng
+    combos = [(s, k, d) for s in STRATS if s[0] != "check-only" for k, ds in INPUTS.items() for d in ds[:1]]
+    for i in range(n):
+        (name, opts), kind, data = combos[i % len(combos)]
+        seq = [rng.random() < 0.5 for _ in range(400)]
+        abort_at = rng.randint(1, 8)
+        cls = driver.ABORT_CLASSES[i % len(driver.ABORT_CLASSES)]
+
+        def dec(k, disk, seq=seq, abort_at=abort_at):
+            if k == abort_at:
+                return "x"
+            return "a" if k == 0 or seq[k % len(seq)] else "r"
+
+        o, f, run = scripts.play_real(name, opts, kind, data, dec, abort_cls=cls, vanish=True)
+        case = case_of(f, [run], strategy=name, splitter=kind, data=common.enc_bytes(data), stream="D2-vanishing-file", abort_class=cls.__name__)
+        ctx.evaluations += 1
+        ctx.bump("D2-vanishing-file")
+        if o.exit == "x" and o.exc is not None and not isinstance(o.exc, cls):
+            ctx.fail("abort-masked", f"the run was aborted by {cls.__name__} but run() raised {type(o.exc).__name__}: {o.exc}", case)
+        apply_monitors(ctx, which, [o], [run], f, data, case)
+
+
 def d2_move_aborts(ctx, which, nontrivial, maxlen, do_model=True):
     """minimize-balanced with the experimental move: EVERY verdict sequence of up to `maxlen` tests on two small bracketed
     files, followed by an abort in the next test (an accepted move directly before the abort included)"""
